@@ -535,6 +535,140 @@ fn stalled_case(kind: u8, queued_kb: usize, res: &mut CaseResult) {
     }
 }
 
+/// The fault sits right behind a burst of hundreds or thousands of frames that become
+/// readable all at once (heartbeats, or deliveries to an idle no-ack consumer), with a call
+/// in flight and nothing else happening afterwards: no client write, no further inbound
+/// byte, heartbeats off. The death must still be noticed.
+///   kind 0: EOF   1: reset   2: server Connection.Close   3: a malformed frame
+fn burst_case(kind: u8, r: &mut Rng, res: &mut CaseResult) {
+    use crate::reflex::deliver_frames;
+    let (conn, h) = session::open_default(Reflex::default());
+    let mut conn = match conn {
+        Ok(c) => c,
+        Err(e) => {
+            res.inconclusive(format!("handshake: {}", ek(&e)));
+            return;
+        }
+    };
+    let (cch, rpcch) = match (conn.open_channel(None), conn.open_channel(None)) {
+        (Ok(a), Ok(b)) => (a, b),
+        _ => {
+            res.inconclusive("open_channel failed");
+            return;
+        }
+    };
+    let deliveries = r.bool();
+    let consumer = match cch.basic_consume("q", amiquip::ConsumerOptions { no_ack: true, ..Default::default() }) {
+        Ok(c) => c,
+        Err(e) => {
+            res.inconclusive(format!("consume: {}", ek(&e)));
+            return;
+        }
+    };
+    let rx = consumer.receiver().clone();
+    let tag = consumer.consumer_tag().to_string();
+    let cid = cch.channel_id();
+    // a call in flight whose reply never comes
+    let rid = rpcch.channel_id();
+    h.with(|st| {
+        st.reflex.hold_channels.insert(rid);
+    });
+    let tr = run::spawn("rpc", move || {
+        let r = rpcch.queue_declare("never-answered", QueueDeclareOptions::default()).map(|_| ()).map_err(|e| ek(&e));
+        let later = rpcch.qos(0, 0, false).map_err(|e| ek(&e));
+        (r, later)
+    });
+    h.wait(W, |st| st.reflex.held.iter().any(|x| x.ch == rid));
+    // the burst and the fault, available to the very same read pass
+    let n = *r.pick(&[50usize, 130, 300, 1000, 5000]);
+    let mut bytes: Vec<u8> = Vec::new();
+    for i in 0..n {
+        if deliveries {
+            let m = msg(i as u64, *r.pick(&[0usize, 1, 20]));
+            bytes.extend(deliver_frames(cid, &tag, &m, &crate::reflex::even_partition(m.body.len(), 4000)).concat());
+        } else {
+            bytes.extend(crate::wire::enc_raw(crate::wire::T_HEARTBEAT, 0, &[]));
+        }
+    }
+    let accept: Vec<String> = match kind {
+        0 => vec!["UnexpectedSocketClose".into()],
+        1 => vec!["IoErrorReadingSocket(ConnectionReset)".into()],
+        2 => {
+            bytes.extend(conn_close_frame(541, "burst then close"));
+            vec!["ServerClosedConnection(541,\"burst then close\")".into()]
+        }
+        _ => {
+            bytes.extend(vec![1u8, 0, 0, 0, 0, 0, 4, 0, 10, 0, 99, 0xAB]);
+            vec!["MalformedFrame".into()]
+        }
+    };
+    h.inject_then_end(
+        bytes,
+        match kind {
+            0 => Some(InEnd::Eof),
+            1 => Some(InEnd::Err(ErrorKind::ConnectionReset)),
+            _ => None,
+        },
+    );
+    res.obs("burst_frames_before_fault", n as u64);
+    match tr.join(W) {
+        J::Done((r, later)) => {
+            if r.is_ok() || later.is_ok() {
+                res.violate("call_succeeded_after_death", format!("rpc thread: {:?} / {:?}", r, later));
+            }
+        }
+        _ => res.violate("caller_not_released", format!("fault kind {} right behind a burst of {} {}: the call in flight was not released within 20s", kind, n, if deliveries { "deliveries" } else { "heartbeats" })),
+    }
+    // the consumer's queue terminates
+    let mut got = 0usize;
+    let deadline = Instant::now() + W;
+    let mut terminated = false;
+    while Instant::now() < deadline {
+        match rx.recv_timeout(Duration::from_millis(200)) {
+            Ok(amiquip::ConsumerMessage::Delivery(_)) => got += 1,
+            Ok(_) => {}
+            Err(crossbeam_channel::RecvTimeoutError::Disconnected) => {
+                terminated = true;
+                break;
+            }
+            Err(_) => {}
+        }
+    }
+    if !terminated {
+        res.violate("consumer_queue_not_terminated", format!("fault kind {} right behind a burst of {}: consumer queue still open after 20s ({} deliveries seen)", kind, n, got));
+    } else if deliveries && got != n && kind != 3 {
+        // (frames in front of a malformed one have all been acted on as well, but that is C06's)
+        res.violate("deliveries_lost_before_fault", format!("{} of {} deliveries in front of the fault arrived", got, n));
+    }
+    drop(consumer);
+    drop(cch);
+    let h2 = h.clone();
+    let t = run::spawn("close", move || {
+        let r = conn.close();
+        (r, h2.peek(|st| st.released))
+    });
+    match t.join(W) {
+        J::Done((r, released)) => {
+            let got = match &r {
+                Ok(()) => "Ok".to_string(),
+                Err(e) => ek(e),
+            };
+            if !accept.contains(&got) {
+                res.violate("wrong_root_cause", format!("fault kind {} behind a burst: Connection::close() = {}, want {:?}", kind, got, accept));
+            }
+            if !released {
+                res.violate("transport_not_released", "close returned but the transport has not been dropped".to_string());
+            }
+        }
+        _ => res.violate("close_hangs", format!("fault kind {} behind a burst of {}: Connection::close still blocked after 20s", kind, n)),
+    }
+    for p in run::io_panics(&run::take_panics()) {
+        res.violate("io_thread_panic", format!("{} at {}", p.msg, p.loc));
+    }
+    res.sig = crate::rng::fnv_str(&format!("burst{}{}{}", kind, n, deliveries));
+    res.sample = Some(json!({"fault_kind": kind, "burst_frames": n, "deliveries": deliveries}));
+}
+
 /// The peer goes silent (no EOF, no reset) while a close handshake is under way, with
 /// heartbeats negotiated: only the missed-heartbeat timer can end this.
 ///   kind 0: client close, the server never answers
@@ -621,6 +755,18 @@ fn silent_close_case(kind: u8, res: &mut CaseResult) {
 }
 
 pub fn run(rc: &mut RunCtx) {
+    for i in 0..rc.n(16, 400) {
+        let kind = (i % 4) as u8;
+        let id = format!("burst:kind{}:{}", kind, i);
+        if !rc.mine(&id) {
+            continue;
+        }
+        rc.begin(&id);
+        let mut res = CaseResult::new(id);
+        let mut r = Rng::for_case(rc.seed, 5, 8_000_000 + i);
+        burst_case(kind, &mut r, &mut res);
+        rc.end(res);
+    }
     let seed = rc.seed;
     // the peer falls silent during a close handshake (heartbeats on)
     for rep in 0..rc.n(1, 4) {
